@@ -28,43 +28,78 @@ L, R = ("atom", "L"), ("atom", "R")
 
 # ---------------------------------------------------------------- R1 helpers
 def _operand_origins(it):
-    """term(): which operand of the Term each local derives from - 'lhs' (the field `lhs` of the &Term parameter) or 'rhs' (the second component of what the loop over
-    its field `rhs` binds).  Followed through `let` initialisers; a role is a field of a typed parameter, never the spelling of a local."""
+    """term(): which operand of the Term an expression is made of, in source order - 'lhs' (the field `lhs` of the &Term parameter) or 'rhs' (the second component of
+    what the loop over its field `rhs` binds).  Followed through `let` initialisers (`let operands = vec![lhs, rhs]`); a role is a field of a typed parameter,
+    never the spelling of a local.  -> function expr -> ordered list of roles"""
     terms = set(params_of_type(it, r"^&(mut)?Term$"))
-    org = {}
-
-    def add(name, o):
-        if o - org.get(name, set()):
-            org.setdefault(name, set()).update(o)
-            return True
-        return False
-
-    def of_expr(e):
-        out = set()
-        for x in walk(e):
-            if x[0] == "field" and x[2] in ("lhs", "rhs") and path_of(strip_refs(x[1])) in terms:
-                if x[2] == "lhs":
-                    out.add("lhs")
-            elif x[0] == "path":
-                out |= org.get(x[1], set())
-        return out
+    loop_bound = set()
     for lp in loop_bindings_over_field(it["body"], terms, "rhs"):
         pat = lp[1]
         while pat[0] in ("pref", "ptype"):
             pat = pat[2] if pat[0] == "pref" else pat[1]
         if pat[0] == "ptuple" and len(pat[1]) == 2:
-            for b in find(pat[1][1], "pident"):
-                add(b[1], {"rhs"})
-    lets = [st for st in find(it["body"], "let") if st[2] is not None]
-    changed = True
-    while changed:
-        changed = False
-        for st in lets:
-            o = of_expr(st[2])
-            if o:
-                for b in find(st[1], "pident"):
-                    changed |= add(b[1], o)
-    return org
+            loop_bound |= {b[1] for b in find(pat[1][1], "pident")}
+    lets = {}
+    for st in find(it["body"], "let"):
+        if st[2] is not None:
+            for b in find(st[1], "pident"):
+                lets.setdefault(b[1], []).append(st[2])
+
+    def ordered(e, busy=()):
+        out = []
+        for x in walk(e):
+            tags = []
+            if x[0] == "field" and x[2] == "lhs" and path_of(strip_refs(x[1])) in terms:
+                tags = ["lhs"]
+            elif x[0] == "path" and "::" not in x[1] and x[1] not in busy:
+                for init in lets.get(x[1], []):
+                    tags = ordered(init, busy + (x[1],))
+                    if tags:
+                        break
+                if not tags and x[1] in loop_bound:
+                    tags = ["rhs"]
+            elif x[0] == "path" and x[1] in busy and x[1] in loop_bound:
+                tags = ["rhs"]
+            for t in tags:
+                if not out or out[-1] != t:
+                    out.append(t)
+        return out
+    return ordered
+
+
+def check_tokens(items, rep, crate):
+    """R1, token side: every arm `TableOp::X => TableX {..}` (in term() or in a helper term() calls) and the operands of the `.compile(..)` that receives the struct"""
+    n_tok = 0
+    fns = [it for it in items if it.get("k") in ("fn", "method") and it.get("body")]
+    for it in fns:
+        arms = [(m, a) for m in find(it["body"], "match") for a in m[2] if re.search(r"TableOp::(\w+)", render_pat(a[0]))
+                and any(s_[1].split("::")[-1].startswith("Table") for s_ in find(a[2], "struct"))]
+        if not arms:
+            continue
+        org = _operand_origins(it)
+        # `.compile(..)` calls outside the arms that receive what this function returns (the struct is chosen in a helper, compiled by the caller)
+        outer_args = []
+        for g in fns:
+            if g is it:
+                continue
+            og = None
+            for c in find(g["body"], "mcall"):
+                if c[2] == "compile" and c[4] and any(last_seg(x[1][1]) == it["name"] for x in find(c[1], "call") if is_node(x[1]) and x[1][0] == "path"):
+                    og = og or _operand_origins(g)
+                    outer_args.append(og(c[4][0]))
+        for m, a in arms:
+            mm = re.search(r"TableOp::(\w+)", render_pat(a[0]))
+            used = [s_[1].split("::")[-1] for s_ in find(a[2], "struct") if s_[1].split("::")[-1].startswith("Table")]
+            n_tok += 1
+            ok = used == ["Table%s" % mm.group(1)]
+            # operands: the leaves of the argument of `.compile(..)`, each by the Term operand it derives from
+            inner = [org(c[4][0]) for c in find(a[2], "mcall") if c[2] == "compile" and c[4]]
+            calls = inner or outer_args
+            args = calls[0] if calls else []
+            ok_args = bool(calls) and all(c == ["lhs", "rhs"] for c in calls)
+            rep.check(ok and ok_args, "C18-R1", "token:%s" % mm.group(1) if ok and ok_args else "token:%s->%s(%s)" % (mm.group(1), ",".join(used), ",".join(args[:2])),
+                      "TableOp::%s compiles %s with operands %s" % (mm.group(1), used, args[:2]), "%s (%s)" % (it["name"], crate), sample={"token": mm.group(1), "struct": used})
+    return n_tok
 
 
 # ---------------------------------------------------------------- the join routine, evaluated once per JoinMode
@@ -172,7 +207,9 @@ class ModeRun:
                 continue
             lrow = ("elem", I.loops[ll[-1]]["src"], ll[-1])
             for c, pol in A.flat_conds(e["ctx"]):
-                if pol and self.is_predicate(c, lrow, v):
+                if self.is_predicate(c, lrow, v):
+                    # `if p { push }` and `if !p { continue } push` state the same fact: p with its polarity is the predicate
+                    c = c if pol else ("not", c)
                     self.matchsets[e["obj"]] = {"pred": c, "lrow": lrow, "rrow": v, "left": ll[-1], "right": v[2], "conds": A.flat_conds(e["ctx"]), "alloc": I.objs[e["obj"]]["loops"]}
         # the marks: a list of `false`, one per right row
         self.marks = {oid for oid, o in I.objs.items() if o["kind"] == "filled" and o["init"] and o["init"][0] == ("bool", False) and o["init"][1] == ("field", R, "rows")}
@@ -180,6 +217,18 @@ class ModeRun:
     def is_predicate(self, c, lrow, rrow):
         sv = set(A.subvalues(c))
         return L in sv and R in sv and lrow in sv and rrow in sv
+
+    def predicate_holds(self, conds, lrow, rrow):
+        """the path condition contains THE match predicate (the one the match sets are filled under, or - without match sets - a condition relating both rows
+        of both tables), with the polarity that makes it true"""
+        for c, pol in conds:
+            if not self.is_predicate(c, lrow, rrow):
+                continue
+            p = c if pol else ("not", c)
+            n = _norm_predicate(self.I, p)
+            if n is not None and n[0] == "all":
+                return True
+        return False
 
     # ---- emission classes of this mode
     def emptiness_of_matchset(self, conds):
@@ -213,7 +262,7 @@ class ModeRun:
                 if tabs == [L, R] and len(rows) == 2 and lrow is not None and rows[0] == lrow:
                     r = rows[1]
                     matched_row = (r[0] == "elem" and r[2] in ml) or \
-                        (r[0] == "elem" and r[2] in rl and any(pol and self.is_predicate(c, lrow, r) for c, pol in conds))
+                        (r[0] == "elem" and r[2] in rl and self.predicate_holds(conds, lrow, r))
                     if matched_row and all(f == ("bool", False) for f in flags) and emp is not True:
                         return "pairs"
                     if r == ("int", 0) and flags and all(f == ("bool", True) for f in flags) and emp is True and not ml and not rl:
@@ -260,7 +309,7 @@ class ModeRun:
             if r[1][0] == "obj" and r[1][1] in self.matchsets:
                 return True
             ll = [l for l in e["loops"] if l in self.left_loops]
-            if r[2] in self.right_loops and ll and any(pol and self.is_predicate(c, ("elem", I.loops[ll[-1]]["src"], ll[-1]), r) for c, pol in conds):
+            if r[2] in self.right_loops and ll and self.predicate_holds(conds, ("elem", I.loops[ll[-1]]["src"], ll[-1]), r):
                 return True
         return False
 
@@ -332,31 +381,21 @@ def run(F, rep, tier):
     for s, mode in sorted(structs.items()):
         ok = mode is not None and s == "Table%sJoin" % mode.replace("Join", "")
         rep.check(ok, "C18-R1", "struct:%s" % s if ok else "struct:%s->%s" % (s, mode), "%s compiles the join with JoinMode::%s" % (s, mode), "%s (%s)" % (s, crate), sample={"struct": s, "mode": mode})
-    n_tok = 0
-    for it in items:
-        if it["k"] == "fn" and it["name"] == "term" and it.get("body"):
-            org = _operand_origins(it)
-            for m in find(it["body"], "match"):
-                for a in m[2]:
-                    mm = re.search(r"TableOp::(\w+)", render_pat(a[0]))
-                    if not mm:
-                        continue
-                    used = [s_[1].split("::")[-1] for s_ in find(a[2], "struct") if s_[1].split("::")[-1].startswith("Table")]
-                    if not used:
-                        continue
-                    n_tok += 1
-                    ok = used == ["Table%s" % mm.group(1)]
-                    # operands: the leaves of the argument of `.compile(..)`, each by the Term operand it derives from
-                    args = ["/".join(sorted(org[x[1]])) for c in find(a[2], "mcall") if c[2] == "compile" and c[4] for x in walk(c[4][0]) if x[0] == "path" and org.get(x[1])]
-                    ok_args = args[:2] == ["lhs", "rhs"]
-                    rep.check(ok and ok_args, "C18-R1", "token:%s" % mm.group(1) if ok and ok_args else "token:%s->%s(%s)" % (mm.group(1), ",".join(used), ",".join(args[:2])),
-                              "term(): TableOp::%s compiles %s with operands %s" % (mm.group(1), used, args[:2]), "term (%s)" % crate, sample={"token": mm.group(1), "struct": used})
+    n_tok = check_tokens(items, rep, crate)
     rep.floor("C18-R1", "table operator tokens routed", n_tok, 6)
 
+    got, opt = check_join(items, rep, crate)
+    rep.analysed = dict(rep.analysed or {}, structs=structs)
+    run_r5(F, rep)
+
+
+def check_join(items, rep, crate):
+    """R2-R4 on the join routine found among `items` (recognised by signature)"""
+    got, opt = {}, {}
     # ---------------- R2
     bj = join_routines(items)
     if not rep.check(len(bj) == 1, "C18-R2", "anchor:build_joined_table", "the join routine (two tables and a JoinMode -> table) was not found (%d)" % len(bj)):
-        return
+        return got, opt
     routine = bj[0]
     where = "%s (%s)" % (routine["name"], crate)
     runs = {}
@@ -365,7 +404,7 @@ def run(F, rep, tier):
             runs[mo] = ModeRun(items, routine, mo)
     except (A.GiveUp, RecursionError) as ex:
         rep.bad("C18-R2", "anchor:join-routine-not-analysable", "the join routine could not be evaluated symbolically (%s)" % ex, where)
-        return
+        return got, opt
     em = {mo: r.emissions() for mo, r in runs.items()}
     # the loop over the left rows: the one loop over the rows of the left table that encloses row emissions
     def emitting_left_loops(r, es):
@@ -373,7 +412,7 @@ def run(F, rep, tier):
     n_left = {mo: len(emitting_left_loops(runs[mo], em[mo])) for mo in MODES}
     ok_anchor = all(runs[mo].out_rows is not None for mo in MODES) and all(n == 1 for n in n_left.values())
     if not rep.check(ok_anchor, "C18-R2", "anchor:left-row-loop", "the loop over the left rows that emits the output rows of every mode was not found (%s)" % n_left, where):
-        return
+        return got, opt
     bad_left = sorted({A.show(r.I.loops[l]["src"]) for mo, r in runs.items() for l in emitting_left_loops(r, em[mo])
                        if not (r.range_over_rows(l, L) and A.loop_is_plain(r.I, l))})
     rep.check(not bad_left, "C18-R2", "left-rows:all", "the left rows are iterated as `%s` (or the loop is left early), not 1..=lhs.rows" % ", ".join(bad_left), where)
@@ -540,9 +579,9 @@ def run(F, rep, tier):
                       side, sorted(ms) if ms else None, sorted(want_opt[side]), "" if cg else ", and only the non-shared ones"), where, sample={"side": side, "modes": sorted(ms) if ms else None})
     ok = left_only_modes == {"LeftSemi", "LeftAnti"}
     rep.check(ok, "C18-R4", "semi-anti:left-columns-only", "the semi/anti joins do not reduce the output to the left table's columns (modes whose output has the left columns only: %s)" % sorted(left_only_modes), where)
-    rep.analysed = {"modes": {k: sorted(v) for k, v in got.items()}, "structs": structs, "optional": {k: sorted(v[0]) if v[0] else None for k, v in opt.items()},
-                    "helpers_evaluated_in_place": sorted(set(runs["Inner"].I.inlined))}
-    run_r5(F, rep)
+    rep.analysed = {"modes": {k: sorted(v) for k, v in got.items()}, "optional": {k: sorted(v[0]) if v[0] else None for k, v in opt.items()},
+                    "helpers_evaluated_in_place": sorted({n for r in runs.values() for n in r.I.inlined})}
+    return got, opt
 
 
 def run_r5(F, rep):
